@@ -19,13 +19,17 @@ def classify(lines):
     mx = dict(lines[0]["max"])
     open_ = {}
     c = {"rebonds": 0, "dup_in_chunk": 0, "refusals": 0, "expired": 0, "accepted": 0, "overflow_rate": 0, "setmax": 0,
-         "exceeds": 0}
+         "exceeds": 0, "inner_build_failures": 0, "bond_errors": 0, "bonded_in_failed_build": 0}
     for l in lines[1:]:
         if l["ev"] == "build":
             if len(set(l["txs"])) < len(l["txs"]):
                 c["dup_in_chunk"] += 1
             if l["rate"] < 0:
                 c["overflow_rate"] += 1
+            if l.get("err") == "inner":
+                c["inner_build_failures"] += 1
+            elif l.get("err") == "bond":
+                c["bond_errors"] += 1
             for n, ok in zip(l["txs"], l["oks"]):
                 if not ok:
                     c["refusals"] += 1
@@ -38,6 +42,8 @@ def classify(lines):
                     if due + fee > mx[sp] or (l["rate"] < 0 and info[n]["size"] > 0):
                         c["exceeds"] += 1
                     open_[n] = fee
+                    if l.get("err", "none") != "none":
+                        c["bonded_in_failed_build"] += 1
         elif l["ev"] == "accept":
             for n in list(open_):
                 if n in l["incl"]:
@@ -57,6 +63,20 @@ def sig(f):
     if f.get("invariant"):
         return "%s:%s" % (ev.get("ev"), f["invariant"])
     kind = "pending-differs-from-ledger"
+    if ev.get("ev") == "accept":
+        # is a tx that should have been settled by this accept one that was bonded by a failed build?
+        try:
+            lines = vlib.read_ndjson(f["scenario_file"])[: f["line_in_scenario"]]
+            info, failed_bond = lines[0]["txs"], set()
+            for l in lines[1:-1]:
+                if l["ev"] == "build":
+                    for n, ok in zip(l["txs"], l["oks"]):
+                        if ok:
+                            (failed_bond.add if l.get("err", "none") != "none" else failed_bond.discard)(n)
+            if any(n in failed_bond and (n in ev["incl"] or info[n]["exp"] < ev["ts"]) for n in info):
+                kind = "bond-of-failed-build-not-released:" + kind
+        except Exception:
+            pass
     if ev.get("ev") == "build":
         # was some transaction of this build already bonded (re-submission) or repeated inside the chunk?
         try:
@@ -98,7 +118,8 @@ def binding_tv(ctx, scenarios, depth):
     ctx.add("distinct_nontrivial", len(distinct))
     ctx.sample({"kind": "recorded-history", "first_lines": vlib.read_ndjson(files[0])[:5]})
     if ctx.only is None:
-        for k in ("rebonds_observed", "refusals_observed", "expired_observed", "accepted_observed", "dup_in_chunk_observed"):
+        for k in ("rebonds_observed", "refusals_observed", "expired_observed", "accepted_observed", "dup_in_chunk_observed",
+                  "inner_build_failures_observed", "bond_errors_observed", "bonded_in_failed_build_observed"):
             if ctx.cov.get(k, 0) == 0:
                 raise vlib.Infra("vacuity: no %s in %d scenarios" % (k, len(files)))
     if os.environ.get("VERIF_CORRUPT"):   # self-test of the binding: falsify one recorded balance
@@ -121,15 +142,22 @@ def run(ctx):
         ctx.cov["design_step_detects_double_bond_as_originally_coded"] = bool(r["violated"])
         if not r["violated"]:
             raise vlib.Infra("sensitivity: the model of Bond as originally coded no longer violates the ledger")
+        if not ctx.quick:
+            r = vlib.tlc_mc(ctx, "Bond_MC", "Bond_MC_latetrack.cfg", label="latetrack", expect_violation=True)
+            ctx.cov["design_step_detects_heap_add_after_inner_build"] = bool(r["violated"])
+            if not r["violated"]:
+                raise vlib.Infra("sensitivity: the model that tracks bonded txs only after a successful inner build no longer violates")
     fails = binding_tv(ctx, ctx.pick(400, 4000), ctx.pick(30, 60))
     vlib.report_failures(ctx, fails, describe)
     ctx.cov["rule"] = ("tv: seeded histories (30/60 calls) over 6 real transactions of 1-3 sponsors: BuildChunk with 1-4 txs "
                        "(duplicates inside the chunk and re-submission of recently built txs are biased in), fee rates "
-                       "0,1,2,3,5 and an overflowing one, Accept with even timestamps (expiries are odd) and 0-3 included "
+                       "0,1,2,3,5 and an overflowing one, 1/6 of the builds with a failing inner DSMR.BuildChunk and 1/12 with a Bond "
+                       "error at a random position (what was bonded before stays bonded), Accept with even timestamps (expiries are odd) and 0-3 included "
                        "txs, SetMaxBalance around multiples of a tx fee; a history is non-trivial when a still-bonded "
                        "transaction is bonded again and something is later settled by accept or expiry; distinct = distinct "
                        "(call, args, bond answers) sequences")
-    ctx.assumptions += ["database reads/writes of the bonder succeed (memdb); error paths are not exercised",
+    ctx.assumptions += ["a Bond error is injected by the recording decorator before the real Bonder is called (equivalent to a failing first "
+                        "database read, which happens before any write); other database failures are not exercised",
                         "expiry boundary (expiry == block timestamp) is not exercised: the statement does not fix < versus <=",
                         "a re-bond of a still-bonded transaction must leave the first fee in force (a 'replace the fee' "
                         "policy would be flagged); refusing any bond is always accepted",
